@@ -8,7 +8,7 @@ CONSTANTS
   MaxAcc = 3
   MaxAfterEnd = 1
   EarlyDestroy = FALSE
-  PostIncMoves = TRUE
+  PostIncMoves = FALSE
   Threaded = TRUE
 INVARIANTS TypeOK SameSequence PayloadIntact SingleEOS ExceptionAtPosition ArgDelivered LocalsDestroyedOnce BlockedOnlyOnPending RecordClean TerminalOK
 CHECK_DEADLOCK FALSE
